@@ -135,8 +135,8 @@ func (fx *fnExec) callStatic0(callee *ssa.Function, args []Val, bindings []Val, 
 	inl := (c != nil && c.Inline) || inlinePkgs[path] || callee.Parent() != nil || bindings != nil || (inlineAll && inRepo(callee)) || ex.useBody(callee)
 	if !inl && inRepo(callee) {
 		// same-module callee without contract: inline when small and loop-free
-		if !hasLoops(callee) && len(callee.Blocks) <= 40 {
-			inl = true
+		if (!hasLoops(callee) && len(callee.Blocks) <= 40) || ex.Bounded {
+			inl = true // bounded units execute callee bodies (loops unrolled up to the bound)
 		} else {
 			fail("%s: callee %s has loops or is large and has no contract (add one, or mark it inline/opaque)", fx.fn, name)
 		}
@@ -224,6 +224,19 @@ func (fx *fnExec) applyContract(c *Contract, callee *ssa.Function, args []Val, s
 		loc := env.evalLoc(m)
 		fx.havocLoc(st, loc)
 	}
+	if c.HavocAll {
+		except := map[string]bool{}
+		for _, m := range c.HavocExcept {
+			loc := env.evalLoc(m)
+			if loc.Kind != "key" {
+				fail("havocs except %s: only type-level fields T.f are supported", m.Src)
+			}
+			for _, k := range loc.Keys {
+				except[k] = true
+			}
+		}
+		fx.havocAll(st, except, funcKey(callee))
+	}
 	for _, m := range c.Preserves {
 		loc := env.evalLoc(m)
 		if loc.Kind != "ptr" {
@@ -248,7 +261,7 @@ func (fx *fnExec) applyContract(c *Contract, callee *ssa.Function, args []Val, s
 		ex.assume(st, Forall([]*Term{r}, Implies(Select(oa, r), Select(na, r)), Select(oa, r)))
 		st.heapSet(allocKey, na)
 	}
-	if len(c.Modifies) == 0 && !c.Allocates {
+	if len(c.Modifies) == 0 && !c.Allocates && !c.HavocAll {
 		// a callee that modifies and allocates nothing returns only references that existed before
 		// (checked on the callee's side as obligation post.noalloc)
 		for _, rv := range rvals {
@@ -412,11 +425,12 @@ func (fx *fnExec) callSiteHooks(callee *ssa.Function, args []Val, st *State, pos
 		if !match(a.Callee) {
 			continue
 		}
-		fx.callCount["assert:"+a.Callee]++
-		if a.Nth != 0 && a.Nth != fx.callCount["assert:"+a.Callee] {
+		fx.callCount[fmt.Sprintf("assert:%d:%s", i, a.Callee)]++
+		if a.Nth != 0 && a.Nth != fx.callCount[fmt.Sprintf("assert:%d:%s", i, a.Callee)] {
 			continue
 		}
 		env := fx.specEnv(st, fx.entry, nil)
+		env.at = pos
 		cc := fx.ex.L.contractFor(callee)
 		if cc != nil {
 			for j, pn := range cc.Params {
@@ -432,7 +446,7 @@ func (fx *fnExec) callSiteHooks(callee *ssa.Function, args []Val, st *State, pos
 			}
 		}
 		t := env.evalBool(a.Cond)
-		fx.oblige(fmt.Sprintf("assertcall.%s.%d#%d", a.Callee, i+1, fx.callCount["assert:"+a.Callee]), "assertcall", st, t, pos, a.Cond.Src)
+		fx.oblige(fmt.Sprintf("assertcall.%s.%d#%d", a.Callee, i+1, fx.callCount[fmt.Sprintf("assert:%d:%s", i, a.Callee)]), "assertcall", st, t, pos, a.Cond.Src)
 	}
 	for _, g := range fx.c.Ghost {
 		if !match(g.Callee) || g.After {
